@@ -1,16 +1,436 @@
-// HEVC part of the C15 harness: kinds HSPS / HPPS / HSLICE ...
+// HEVC part of the C15 harness: kinds HSPS / HPPS / HSLICE / HCONF
 package main
+
+import (
+	"bytes"
+	"fmt"
+	"os"
+	"path/filepath"
+	"sort"
+	"strings"
+
+	"github.com/Eyevinn/mp4ff/hevc"
+	"verifharness/hx"
+)
+
+func flatBools(f *flat, name string, l []bool) {
+	f.u(name+".len", uint64(len(l)))
+	for i, x := range l {
+		f.b(fmt.Sprintf("%s[%d]", name, i), x)
+	}
+}
+
+func flatU32s(f *flat, name string, l []uint32) {
+	f.u(name+".len", uint64(len(l)))
+	for i, x := range l {
+		f.u(fmt.Sprintf("%s[%d]", name, i), uint64(x))
+	}
+}
+
+func flatProfile(f *flat, name string, space byte, tier bool, idc byte, compat uint32, prog, inter, nonPacked, frameOnly bool, constraint uint64) {
+	f.u(name+".ProfileSpace", uint64(space))
+	f.b(name+".TierFlag", tier)
+	f.u(name+".ProfileIDC", uint64(idc))
+	f.u(name+".ProfileCompatibilityFlags", uint64(compat))
+	f.b(name+".ProgressiveSourceFlag", prog)
+	f.b(name+".InterlacedSourceFlag", inter)
+	f.b(name+".NonPackedConstraintFlag", nonPacked)
+	f.b(name+".FrameOnlyConstraintFlag", frameOnly)
+	f.u(name+".ConstraintIndicatorFlags", constraint)
+}
+
+func flatRPS(f *flat, name string, r *hevc.ShortTermRPS) {
+	flatU32s(f, name+".DeltaPocS0", r.DeltaPocS0)
+	flatU32s(f, name+".DeltaPocS1", r.DeltaPocS1)
+	flatBools(f, name+".UsedByCurrPicS0", r.UsedByCurrPicS0)
+	flatBools(f, name+".UsedByCurrPicS1", r.UsedByCurrPicS1)
+	f.u(name+".NumNegativePics", uint64(r.NumNegativePics))
+	f.u(name+".NumPositivePics", uint64(r.NumPositivePics))
+	f.u(name+".NumDeltaPocs", uint64(r.NumDeltaPocs))
+}
+
+func flatLT(f *flat, name string, l *hevc.LongTermRPS) {
+	f.u(name+".PocLsbLt", uint64(l.PocLsbLt))
+	f.b(name+".UsedByCurrPicLtFlag", l.UsedByCurrPicLtFlag)
+	f.b(name+".DeltaPocMsbPresentFlag", l.DeltaPocMsbPresentFlag)
+	f.u(name+".DeltaPocMsbCycleLt", uint64(l.DeltaPocMsbCycleLt))
+}
+
+func flatCpbs(f *flat, name string, l []hevc.SubLayerHrdParameters) {
+	f.u(name+".len", uint64(len(l)))
+	for i, c := range l {
+		n := fmt.Sprintf("%s[%d]", name, i)
+		f.u(n+".BitRateValueMinus1", uint64(c.BitRateValueMinus1))
+		f.u(n+".CpbSizeValueMinus1", uint64(c.CpbSizeValueMinus1))
+		f.u(n+".CpbSizeDuValueMinus1", uint64(c.CpbSizeDuValueMinus1))
+		f.u(n+".BitRateDuValueMinus1", uint64(c.BitRateDuValueMinus1))
+		f.b(n+".CbrFlag", c.CbrFlag)
+	}
+}
+
+func flatHevcHrd(f *flat, name string, h *hevc.HrdParameters) {
+	if h == nil {
+		f.u(name+".present", 0)
+		return
+	}
+	f.u(name+".present", 1)
+	f.b(name+".NalHrdParametersPresentFlag", h.NalHrdParametersPresentFlag)
+	f.b(name+".VclHrdParametersPresentFlag", h.VclHrdParametersPresentFlag)
+	f.b(name+".SubPicHrdParamsPresentFlag", h.SubPicHrdParamsPresentFlag)
+	f.u(name+".TickDivisorMinus2", uint64(h.TickDivisorMinus2))
+	f.u(name+".DuCpbRemovalDelayIncrementLengthMinus1", uint64(h.DuCpbRemovalDelayIncrementLengthMinus1))
+	f.b(name+".SubPicCpbParamsInPicTimingSeiFlag", h.SubPicCpbParamsInPicTimingSeiFlag)
+	f.u(name+".DpbOutputDelayDuLengthMinus1", uint64(h.DpbOutputDelayDuLengthMinus1))
+	f.u(name+".BitRateScale", uint64(h.BitRateScale))
+	f.u(name+".CpbSizeScale", uint64(h.CpbSizeScale))
+	f.u(name+".CpbSizeDuScale", uint64(h.CpbSizeDuScale))
+	f.u(name+".InitialCpbRemovalDelayLengthMinus1", uint64(h.InitialCpbRemovalDelayLengthMinus1))
+	f.u(name+".AuCpbRemovalDelayLengthMinus1", uint64(h.AuCpbRemovalDelayLengthMinus1))
+	f.u(name+".DpbOutputDelayLengthMinus1", uint64(h.DpbOutputDelayLengthMinus1))
+	f.u(name+".SubLayerHrd.len", uint64(len(h.SubLayerHrd)))
+	for i, s := range h.SubLayerHrd {
+		n := fmt.Sprintf("%s.SubLayerHrd[%d]", name, i)
+		f.b(n+".FixedPicRateGeneralFlag", s.FixedPicRateGeneralFlag)
+		f.b(n+".FixedPicRateWithinCvsFlag", s.FixedPicRateWithinCvsFlag)
+		f.u(n+".ElementalDurationInTcMinus1", uint64(s.ElementalDurationInTcMinus1))
+		f.b(n+".LowDelayHrdFlag", s.LowDelayHrdFlag)
+		f.u(n+".CpbCntMinus1", uint64(s.CpbCntMinus1))
+		flatCpbs(f, n+".NalHrdParameters", s.NalHrdParameters)
+		flatCpbs(f, n+".VclHrdParameters", s.VclHrdParameters)
+	}
+}
+
+func flatHevcVUI(f *flat, v *hevc.VUIParameters) {
+	if v == nil {
+		f.u("VUI.present", 0)
+		return
+	}
+	f.u("VUI.present", 1)
+	f.u("VUI.SampleAspectRatioWidth", uint64(v.SampleAspectRatioWidth))
+	f.u("VUI.SampleAspectRatioHeight", uint64(v.SampleAspectRatioHeight))
+	f.b("VUI.OverscanInfoPresentFlag", v.OverscanInfoPresentFlag)
+	f.b("VUI.OverscanAppropriateFlag", v.OverscanAppropriateFlag)
+	f.b("VUI.VideoSignalTypePresentFlag", v.VideoSignalTypePresentFlag)
+	f.u("VUI.VideoFormat", uint64(v.VideoFormat))
+	f.b("VUI.VideoFullRangeFlag", v.VideoFullRangeFlag)
+	f.b("VUI.ColourDescriptionFlag", v.ColourDescriptionFlag)
+	f.u("VUI.ColourPrimaries", uint64(v.ColourPrimaries))
+	f.u("VUI.TransferCharacteristics", uint64(v.TransferCharacteristics))
+	f.u("VUI.MatrixCoefficients", uint64(v.MatrixCoefficients))
+	f.b("VUI.ChromaLocInfoPresentFlag", v.ChromaLocInfoPresentFlag)
+	f.u("VUI.ChromaSampleLocTypeTopField", uint64(v.ChromaSampleLocTypeTopField))
+	f.u("VUI.ChromaSampleLocTypeBottomField", uint64(v.ChromaSampleLocTypeBottomField))
+	f.b("VUI.NeutralChromaIndicationFlag", v.NeutralChromaIndicationFlag)
+	f.b("VUI.FieldSeqFlag", v.FieldSeqFlag)
+	f.b("VUI.FrameFieldInfoPresentFlag", v.FrameFieldInfoPresentFlag)
+	f.b("VUI.DefaultDisplayWindowFlag", v.DefaultDisplayWindowFlag)
+	f.u("VUI.DefDispWinLeftOffset", uint64(v.DefDispWinLeftOffset))
+	f.u("VUI.DefDispWinRightOffset", uint64(v.DefDispWinRightOffset))
+	f.u("VUI.DefDispWinTopOffset", uint64(v.DefDispWinTopOffset))
+	f.u("VUI.DefDispWinBottomOffset", uint64(v.DefDispWinBottomOffset))
+	f.b("VUI.TimingInfoPresentFlag", v.TimingInfoPresentFlag)
+	f.u("VUI.NumUnitsInTick", uint64(v.NumUnitsInTick))
+	f.u("VUI.TimeScale", uint64(v.TimeScale))
+	f.b("VUI.PocProportionalToTimingFlag", v.PocProportionalToTimingFlag)
+	f.u("VUI.NumTicksPocDiffOneMinus1", uint64(v.NumTicksPocDiffOneMinus1))
+	f.b("VUI.HrdParametersPresentFlag", v.HrdParametersPresentFlag)
+	flatHevcHrd(f, "VUI.Hrd", v.HrdParameters)
+	f.b("VUI.BitstreamRestrictionFlag", v.BitstreamRestrictionFlag)
+	b := v.BitstreamResctrictions
+	if b == nil {
+		f.u("VUI.Bsr.present", 0)
+		return
+	}
+	f.u("VUI.Bsr.present", 1)
+	f.b("VUI.Bsr.TilesFixedStructureFlag", b.TilesFixedStructureFlag)
+	f.b("VUI.Bsr.MVOverPicBoundariesFlag", b.MVOverPicBoundariesFlag)
+	f.b("VUI.Bsr.RestrictedRefsPicsListsFlag", b.RestrictedRefsPicsListsFlag)
+	f.u("VUI.Bsr.MinSpatialSegmentationIDC", uint64(b.MinSpatialSegmentationIDC))
+	f.u("VUI.Bsr.MaxBytesPerPicDenom", uint64(b.MaxBytesPerPicDenom))
+	f.u("VUI.Bsr.MaxBitsPerMinCuDenom", uint64(b.MaxBitsPerMinCuDenom))
+	f.u("VUI.Bsr.Log2MaxMvLengthHorizontal", uint64(b.Log2MaxMvLengthHorizontal))
+	f.u("VUI.Bsr.Log2MaxMvLengthVertical", uint64(b.Log2MaxMvLengthVertical))
+}
+
+func flatHSPS(s *hevc.SPS) *flat {
+	f := &flat{}
+	f.u("VpsID", uint64(s.VpsID))
+	f.u("MaxSubLayersMinus1", uint64(s.MaxSubLayersMinus1))
+	f.b("TemporalIDNestingFlag", s.TemporalIDNestingFlag)
+	p := s.ProfileTierLevel
+	flatProfile(f, "PTL.General", p.GeneralProfileSpace, p.GeneralTierFlag, p.GeneralProfileIDC,
+		p.GeneralProfileCompatibilityFlags, p.GeneralProgressiveSourceFlag, p.GeneralInterlacedSourceFlag,
+		p.GeneralNonPackedConstraintFlag, p.GeneralFrameOnlyConstraintFlag, p.GeneralConstraintIndicatorFlags)
+	f.u("PTL.GeneralLevelIDC", uint64(p.GeneralLevelIDC))
+	f.u("PTL.SubLayers.len", uint64(len(p.SubLayers)))
+	for i, sl := range p.SubLayers {
+		n := fmt.Sprintf("PTL.SubLayers[%d]", i)
+		f.b(n+".ProfilePresentFlag", sl.ProfilePresentFlag)
+		f.b(n+".LevelPresentFlag", sl.LevelPresentFlag)
+		flatProfile(f, n, sl.ProfileSpace, sl.TierFlag, sl.ProfileIDC, sl.ProfileCompatibilityFlags,
+			sl.ProgressiveSourceFlag, sl.InterlacedSourceFlag, sl.NonPackedConstraintFlag,
+			sl.FrameOnlyConstraintFlag, sl.ConstraintFlags)
+		f.u(n+".LayerIDC", uint64(sl.LayerIDC))
+	}
+	f.u("SpsID", uint64(s.SpsID))
+	f.u("ChromaFormatIDC", uint64(s.ChromaFormatIDC))
+	f.b("SeparateColourPlaneFlag", s.SeparateColourPlaneFlag)
+	f.b("ConformanceWindowFlag", s.ConformanceWindowFlag)
+	f.u("PicWidthInLumaSamples", uint64(s.PicWidthInLumaSamples))
+	f.u("PicHeightInLumaSamples", uint64(s.PicHeightInLumaSamples))
+	f.u("ConformanceWindow.LeftOffset", uint64(s.ConformanceWindow.LeftOffset))
+	f.u("ConformanceWindow.RightOffset", uint64(s.ConformanceWindow.RightOffset))
+	f.u("ConformanceWindow.TopOffset", uint64(s.ConformanceWindow.TopOffset))
+	f.u("ConformanceWindow.BottomOffset", uint64(s.ConformanceWindow.BottomOffset))
+	f.u("BitDepthLumaMinus8", uint64(s.BitDepthLumaMinus8))
+	f.u("BitDepthChromaMinus8", uint64(s.BitDepthChromaMinus8))
+	f.u("Log2MaxPicOrderCntLsbMinus4", uint64(s.Log2MaxPicOrderCntLsbMinus4))
+	f.b("SubLayerOrderingInfoPresentFlag", s.SubLayerOrderingInfoPresentFlag)
+	f.u("SubLayeringOrderingInfos.len", uint64(len(s.SubLayeringOrderingInfos)))
+	for i, o := range s.SubLayeringOrderingInfos {
+		n := fmt.Sprintf("SubLayeringOrderingInfos[%d]", i)
+		f.u(n+".MaxDecPicBufferingMinus1", uint64(o.MaxDecPicBufferingMinus1))
+		f.u(n+".MaxNumReorderPics", uint64(o.MaxNumReorderPics))
+		f.u(n+".MaxLatencyIncreasePlus1", uint64(o.MaxLatencyIncreasePlus1))
+	}
+	f.u("Log2MinLumaCodingBlockSizeMinus3", uint64(s.Log2MinLumaCodingBlockSizeMinus3))
+	f.u("Log2DiffMaxMinLumaCodingBlockSize", uint64(s.Log2DiffMaxMinLumaCodingBlockSize))
+	f.u("Log2MinLumaTransformBlockSizeMinus2", uint64(s.Log2MinLumaTransformBlockSizeMinus2))
+	f.u("Log2DiffMaxMinLumaTransformBlockSize", uint64(s.Log2DiffMaxMinLumaTransformBlockSize))
+	f.u("MaxTransformHierarchyDepthInter", uint64(s.MaxTransformHierarchyDepthInter))
+	f.u("MaxTransformHierarchyDepthIntra", uint64(s.MaxTransformHierarchyDepthIntra))
+	f.b("ScalingListEnabledFlag", s.ScalingListEnabledFlag)
+	f.b("ScalingListDataPresentFlag", s.ScalingListDataPresentFlag)
+	f.b("AmpEnabledFlag", s.AmpEnabledFlag)
+	f.b("SampleAdaptiveOffsetEnabledFlag", s.SampleAdaptiveOffsetEnabledFlag)
+	f.b("PCMEnabledFlag", s.PCMEnabledFlag)
+	f.u("PcmSampleBitDepthLumaMinus1", uint64(s.PcmSampleBitDepthLumaMinus1))
+	f.u("PcmSampleBitDepthChromaMinus1", uint64(s.PcmSampleBitDepthChromaMinus1))
+	f.u("Log2MinPcmLumaCodingBlockSize", uint64(s.Log2MinPcmLumaCodingBlockSize))
+	f.u("Log2DiffMaxMinPcmLumaCodingBlockSize", uint64(s.Log2DiffMaxMinPcmLumaCodingBlockSize))
+	f.b("PcmLoopFilterDisabledFlag", s.PcmLoopFilterDisabledFlag)
+	f.u("NumShortTermRefPicSets", uint64(s.NumShortTermRefPicSets))
+	f.u("ShortTermRefPicSets.len", uint64(len(s.ShortTermRefPicSets)))
+	for i := range s.ShortTermRefPicSets {
+		flatRPS(f, fmt.Sprintf("ShortTermRefPicSets[%d]", i), &s.ShortTermRefPicSets[i])
+	}
+	f.b("LongTermRefPicsPresentFlag", s.LongTermRefPicsPresentFlag)
+	f.u("NumLongTermRefPics", uint64(s.NumLongTermRefPics))
+	f.u("LongTermRefPicSets.len", uint64(len(s.LongTermRefPicSets)))
+	for i := range s.LongTermRefPicSets {
+		flatLT(f, fmt.Sprintf("LongTermRefPicSets[%d]", i), &s.LongTermRefPicSets[i])
+	}
+	f.b("SpsTemporalMvpEnabledFlag", s.SpsTemporalMvpEnabledFlag)
+	f.b("StrongIntraSmoothingEnabledFlag", s.StrongIntraSmoothingEnabledFlag)
+	f.b("VUIParametersPresentFlag", s.VUIParametersPresentFlag)
+	flatHevcVUI(f, s.VUI)
+	f.b("ExtensionPresentFlag", s.ExtensionPresentFlag)
+	f.u("Extension4bits", uint64(s.Extension4bits))
+	f.b("RangeExtensionFlag", s.RangeExtensionFlag)
+	if r := s.RangeExtension; r == nil {
+		f.u("RangeExtension.present", 0)
+	} else {
+		f.u("RangeExtension.present", 1)
+		flatBools(f, "RangeExtension", []bool{r.TransformSkipRotationEnabledFlag, r.TransformSkipContextEnabledFlag,
+			r.ImplicitRdpcmEnabledFlag, r.ExplicitRdpcmEnabledFlag, r.ExtendedPrecisionProcessingFlag,
+			r.IntraSmoothingDisabledFlag, r.HighPrecisionOffsetsEnabledFlag,
+			r.PersistentRiceAdaptationEnabledFlag, r.CabacBypassAlignmentEnabledFlag})
+	}
+	f.b("MultilayerExtensionFlag", s.MultilayerExtensionFlag)
+	if m := s.MultilayerExtension; m == nil {
+		f.u("MultilayerExtension.present", 0)
+	} else {
+		f.u("MultilayerExtension.present", 1)
+		f.b("MultilayerExtension.InterViewMvVertConstraintFlag", m.InterViewMvVertConstraintFlag)
+	}
+	f.b("D3ExtensionFlag", s.D3ExtensionFlag)
+	if d := s.D3Extension; d == nil {
+		f.u("D3Extension.present", 0)
+	} else {
+		f.u("D3Extension.present", 1)
+		f.b("D3.IvDiMcEnabledFlag0", d.IvDiMcEnabledFlag0)
+		f.b("D3.IvMvScalEnabledFlag0", d.IvMvScalEnabledFlag0)
+		f.u("D3.Og2IvmcSubPbSizeMinus3", uint64(d.Og2IvmcSubPbSizeMinus3))
+		f.b("D3.IvResPredEnabledFlag", d.IvResPredEnabledFlag)
+		f.b("D3.DepthRefEnabledFlag", d.DepthRefEnabledFlag)
+		f.b("D3.VspMcEnabledFlag", d.VspMcEnabledFlag)
+		f.b("D3.DbbpEnabledFlag", d.DbbpEnabledFlag)
+		f.b("D3.IvDiMcEnabledFlag1", d.IvDiMcEnabledFlag1)
+		f.b("D3.IvMvScalEnabledFlag1", d.IvMvScalEnabledFlag1)
+		f.b("D3.TexMcEnabledFlag", d.TexMcEnabledFlag)
+		f.u("D3.Log2TexmcSubPbSizeMinus3", uint64(d.Log2TexmcSubPbSizeMinus3))
+		f.b("D3.IntraContourEnabledFlag", d.IntraContourEnabledFlag)
+		f.b("D3.IntraDcOnlyWedgeEnabledFlag", d.IntraDcOnlyWedgeEnabledFlag)
+		f.b("D3.CqtCuPartPredEnabledFlag", d.CqtCuPartPredEnabledFlag)
+		f.b("D3.InterDcOnlyEnabledFlag", d.InterDcOnlyEnabledFlag)
+		f.b("D3.SkipIntraEnabledFlag", d.SkipIntraEnabledFlag)
+	}
+	f.b("SccExtensionFlag", s.SccExtensionFlag)
+	if c := s.SccExtension; c == nil {
+		f.u("SccExtension.present", 0)
+	} else {
+		f.u("SccExtension.present", 1)
+		f.b("Scc.CurrPicRefEnabledFlag", c.CurrPicRefEnabledFlag)
+		f.b("Scc.PaletteModeEnabledFlag", c.PaletteModeEnabledFlag)
+		f.u("Scc.PaletteMaxSize", uint64(c.PaletteMaxSize))
+		f.u("Scc.DeltaPaletteMaxPredictorSize", uint64(c.DeltaPaletteMaxPredictorSize))
+		f.b("Scc.PalettePredictorInitializersPresentFlag", c.PalettePredictorInitializersPresentFlag)
+		f.u("Scc.NumPalettePredictorInitializersMinus1", uint64(c.NumPalettePredictorInitializersMinus1))
+		f.u("Scc.PalettePredictorInitializer.len", uint64(len(c.PalettePredictorInitializer)))
+		for i, l := range c.PalettePredictorInitializer {
+			flatUints(f, fmt.Sprintf("Scc.PalettePredictorInitializer[%d]", i), l)
+		}
+		f.u("Scc.MotionVectorResolutionControlIdc", uint64(c.MotionVectorResolutionControlIdc))
+		f.b("Scc.IntraBoundaryFilteringDisabledFlag", c.IntraBoundaryFilteringDisabledFlag)
+	}
+	flatBools(f, "ExtensionDataFlag", s.ExtensionDataFlag)
+	w, h := s.ImageSize()
+	f.u("ImageSize.width", uint64(w))
+	f.u("ImageSize.height", uint64(h))
+	return f
+}
+
+func runHSPS(nalu []byte) (r result) {
+	p := hx.Try(func() {
+		s, err := hevc.ParseSPSNALUnit(hx.Exact(nalu))
+		if err != nil {
+			r = result{outcome: "err", errStr: err.Error()}
+			return
+		}
+		r = result{outcome: "ok", f: flatHSPS(s)}
+	})
+	if p != "" {
+		r = result{outcome: "panic", errStr: p}
+	}
+	return r
+}
 
 // runHevcCase runs the implementation on one HEVC case (kind starts with "H").
 func runHevcCase(c caseLine, nalu []byte) result {
+	switch c.kind {
+	case "HSPS":
+		return runHSPS(nalu)
+	}
 	return result{outcome: "badkind"}
 }
 
 // hevcSiteOf names the Go function under test for a kind.
-func hevcSiteOf(kind string) string { return "hevc." + kind }
+func hevcSiteOf(kind string) string {
+	switch kind {
+	case "HSPS":
+		return "hevc.ParseSPSNALUnit"
+	case "HPPS":
+		return "hevc.ParsePPSNALUnit"
+	case "HSLICE":
+		return "hevc.ParseSliceHeader"
+	}
+	return "hevc." + kind
+}
 
 // classifyHevc maps the list of mismatching field names of a failing HEVC case to a failure class ("" = default).
 func classifyHevc(c caseLine, bad []string) string { return "" }
 
+// parameter-set NAL units inside hvcC boxes found by a byte scan (independent of the mp4 package)
+func scanHvcC(data []byte) [][]byte {
+	var nalus [][]byte
+	idx := 0
+	for {
+		k := bytes.Index(data[idx:], []byte("hvcC"))
+		if k < 0 {
+			break
+		}
+		p := idx + k + 4
+		idx = p
+		if p+23 > len(data) || data[p] != 1 {
+			continue
+		}
+		nArr := int(data[p+22])
+		q := p + 23
+	arrays:
+		for a := 0; a < nArr; a++ {
+			if q+3 > len(data) {
+				break
+			}
+			cnt := int(data[q+1])<<8 | int(data[q+2])
+			q += 3
+			for i := 0; i < cnt; i++ {
+				if q+2 > len(data) {
+					break arrays
+				}
+				l := int(data[q])<<8 | int(data[q+1])
+				q += 2
+				if l == 0 || q+l > len(data) {
+					break arrays
+				}
+				nalus = append(nalus, data[q:q+l])
+				q += l
+			}
+		}
+	}
+	return nalus
+}
+
 // capturedHevc returns observation cases (id prefix "c", g "0", exp "-") for the HEVC parameter sets found in the repository.
-func capturedHevc(repo string) []caseLine { return nil }
+func capturedHevc(repo string) []caseLine {
+	var files []string
+	_ = filepath.Walk(repo, func(path string, info os.FileInfo, err error) error {
+		if err != nil {
+			return nil
+		}
+		if info.IsDir() {
+			if info.Name() == ".git" {
+				return filepath.SkipDir
+			}
+			return nil
+		}
+		switch filepath.Ext(path) {
+		case ".265", ".h265", ".hevc", ".mp4", ".cmfv", ".m4s", ".mp4s":
+			if info.Size() < 64<<20 {
+				files = append(files, path)
+			}
+		}
+		return nil
+	})
+	sort.Strings(files)
+	seen := map[string]bool{}
+	var spss, ppss []string
+	for _, path := range files {
+		data, err := os.ReadFile(path)
+		if err != nil {
+			continue
+		}
+		var nalus [][]byte
+		switch filepath.Ext(path) {
+		case ".265", ".h265", ".hevc":
+			nalus = splitAnnexB(data)
+		default:
+			nalus = scanHvcC(data)
+		}
+		for _, n := range nalus {
+			if len(n) < 3 {
+				continue
+			}
+			t := (n[0] >> 1) & 0x3f
+			h := hx.Hex(n)
+			if seen[h] {
+				continue
+			}
+			seen[h] = true
+			switch t {
+			case 33:
+				spss = append(spss, h)
+			case 34:
+				ppss = append(ppss, h)
+			}
+		}
+	}
+	var cs []caseLine
+	k := 0
+	for _, h := range spss {
+		cs = append(cs, caseLine{"HSPS", fmt.Sprintf("ch%d", k), "-", h, "0", "-"})
+		k++
+	}
+	_ = ppss
+	_ = strings.Join
+	return cs
+}
